@@ -56,7 +56,7 @@ func runC15(e *env) {
 			continue
 		}
 		if r.BuildErr != "" {
-			cls := classifyBuildErr(r.BuildErr)
+			cls := kindClassIfInput(classifyBuildErr(r.BuildErr), obs[i])
 			if shadowClass(obs[i]) != "" {
 				cls = "randdata:embedded-field-shadowed"
 			}
